@@ -50,7 +50,7 @@ func init() {
 	intrinsics["log.Fatalf"] = intrinsics["log.Fatal"]
 	intrinsics["os.Exit"] = intrinsics["log.Fatal"]
 	intrinsics["fmt.Println"] = func(in *Interp, fr *frame, args []Value) Value {
-		return Tuple{in.tb.BVConst(64, 0), Iface{}}
+		return Tuple{in.mkInt(0), Iface{}}
 	}
 	intrinsics["fmt.Sprintf"] = func(in *Interp, fr *frame, args []Value) Value {
 		return in.sprintf(args[0].(Str), args[1].(Slice).A)
@@ -464,6 +464,12 @@ func (in *Interp) formatVerb(verb byte, flags string, arg Value) Str {
 			}
 			return opaqueStr()
 		}
+		if x.S.K == KInt && x.IsConst() {
+			if isSigned(itf.T) {
+				return Str{S: fmt.Sprintf("%"+flags+string(verb), termInt64(x, true))}
+			}
+			return Str{S: fmt.Sprintf("%"+flags+string(verb), uint64(termInt64(x, false)))}
+		}
 		if x.S.K == KBV && x.IsConst() && x.S.W <= 64 {
 			signed := isSigned(itf.T)
 			var gv interface{}
@@ -538,7 +544,7 @@ func (in *Interp) hasherMethod(o *Opaque, name string, args []Value) Value {
 	case "Write":
 		b := args[1].(Slice).A
 		h.data = append(h.data, b...)
-		return Tuple{in.tb.BVConst(64, uint64(len(b))), Iface{}}
+		return Tuple{in.mkInt(int64(len(b))), Iface{}}
 	case "Sum":
 		prefix := args[1].(Slice).A
 		out := append(append([]Value{}, prefix...), in.hashUF(h.alg, h.n, h.data)...)
@@ -547,7 +553,7 @@ func (in *Interp) hasherMethod(o *Opaque, name string, args []Value) Value {
 		h.data = nil
 		return nil
 	case "Size":
-		return in.tb.BVConst(64, uint64(h.n))
+		return in.mkInt(int64(h.n))
 	}
 	panic(engineAbort{"hasher method " + name})
 }
@@ -580,7 +586,7 @@ func init() {
 			panic(engineAbort{"strings.Builder.WriteString of opaque string"})
 		}
 		appendBytes(in, args[0], in.strBytes(s))
-		return Tuple{in.tb.BVConst(64, uint64(s.Len())), Iface{}}
+		return Tuple{in.mkInt(int64(s.Len())), Iface{}}
 	}
 	intrinsics["(*strings.Builder).WriteByte"] = func(in *Interp, fr *frame, args []Value) Value {
 		appendBytes(in, args[0], []Value{args[1]})
@@ -593,12 +599,12 @@ func init() {
 		}
 		s := string(rune(toSigned(r.C, 32)))
 		appendBytes(in, args[0], in.strBytes(Str{S: s}))
-		return Tuple{in.tb.BVConst(64, uint64(len(s))), Iface{}}
+		return Tuple{in.mkInt(int64(len(s))), Iface{}}
 	}
 	intrinsics["(*strings.Builder).Write"] = func(in *Interp, fr *frame, args []Value) Value {
 		bs := args[1].(Slice).A
 		appendBytes(in, args[0], bs)
-		return Tuple{in.tb.BVConst(64, uint64(len(bs))), Iface{}}
+		return Tuple{in.mkInt(int64(len(bs))), Iface{}}
 	}
 	intrinsics["(*strings.Builder).String"] = func(in *Interp, fr *frame, args []Value) Value {
 		cur := (*bufOf(args[0])).(Slice)
@@ -613,7 +619,7 @@ func init() {
 		return s
 	}
 	intrinsics["(*strings.Builder).Len"] = func(in *Interp, fr *frame, args []Value) Value {
-		return in.tb.BVConst(64, uint64(len((*bufOf(args[0])).(Slice).A)))
+		return in.mkInt(int64(len((*bufOf(args[0])).(Slice).A)))
 	}
 	intrinsics["(*strings.Builder).Grow"] = func(in *Interp, fr *frame, args []Value) Value { return nil }
 	intrinsics["(*strings.Builder).Reset"] = func(in *Interp, fr *frame, args []Value) Value {
@@ -642,9 +648,9 @@ func init() {
 	intrinsics["bytes.IndexByte"] = func(in *Interp, fr *frame, args []Value) Value {
 		tb := in.tb
 		s, c := args[0].(Slice).A, args[1].(*Term)
-		res := tb.BVConst(64, ^uint64(0))
+		res := in.mkInt(-1)
 		for i := len(s) - 1; i >= 0; i-- {
-			res = tb.Ite(tb.Eq(s[i].(*Term), c), tb.BVConst(64, uint64(i)), res)
+			res = tb.Ite(tb.Eq(s[i].(*Term), c), in.mkInt(int64(i)), res)
 		}
 		return res
 	}
